@@ -1,6 +1,7 @@
 package props
 
 import (
+	"strings"
 	"go/token"
 
 	"godcheck/core"
@@ -103,6 +104,87 @@ func c15Extra(r *core.Run, pkg string) {
 				if callers == 0 {
 					o.Fail(p.Pos(f.Pos()), "%s is never called", core.FuncName(f))
 				}
+			}
+		}
+		o.Site(n, pkg)
+	})
+
+	r.Check("D4/K3/disconnect-forgotten-only-with-reload", "a connection loss is forgotten only together with the reload it calls for: every store of false into stateWatcher.disconnected is followed, on every path to the function's end, by the notification of the listeners (which run cluster.reload)", func(o *core.O) {
+		n := 0
+		for _, f := range p.PkgFuncs(pkg) {
+			for _, st := range core.StoresToField(f, "stateWatcher.disconnected") {
+				c, ok := core.Strip(core.Forward(st.Val)).(*ssa.Const)
+				if !ok || c.Value == nil || c.Value.String() != "false" {
+					continue
+				}
+				n++
+				r.Fn(core.FuncName(f))
+				notify := func(in ssa.Instruction) bool {
+					cc := core.AsCall(in)
+					if cc == nil {
+						return false
+					}
+					callee := cc.Common().StaticCallee()
+					if callee == nil || callee.Pkg != f.Pkg {
+						return false
+					}
+					// the helper that calls every registered listener
+					return len(core.Instrs(callee, core.CallOfValue(func(v ssa.Value) bool { return core.DependsOn(v, core.FieldLoad("stateWatcher.listeners")) }))) > 0
+				}
+				if w := core.MustPass(core.After(st), notify, core.IsReturn); w != nil {
+					o.Fail(p.InstrPos(st), "%s clears the disconnected flag on a path that does not notify the listeners: the reload after this connection loss never runs, keys that expired or registered during the outage are never removed or added", core.FuncName(f))
+				}
+			}
+		}
+		o.Site(n, pkg)
+	})
+
+	r.Check("D4/K8/watch-and-load-use-one-prefix", "the snapshot and both forms of the watch ask etcd for the same key range: every EtcdClient.Get and Watch in lib/discov/internal is given result #0 of one and the same in-package function applied to the function's key argument (a watch on the bare key with WithPrefix also matches sibling services whose name starts with the key)", func(o *core.O) {
+		n := 0
+		var first *ssa.Function
+		for _, f := range p.PkgFuncs(pkg) {
+			for _, c := range core.Calls(f, core.Or(core.CallMethod("EtcdClient", "Get"), core.CallMethod("EtcdClient", "Watch"))) {
+				a := core.Args(c)
+				if len(a) < 3 {
+					continue
+				}
+				n++
+				r.Fn(core.FuncName(f))
+				key := core.Strip(core.Forward(a[2]))
+				mk, idx := core.ResultOf(key)
+				if mk == nil || idx != 0 || mk.Call.StaticCallee() == nil || mk.Call.StaticCallee().Pkg != f.Pkg {
+					o.Fail(p.InstrPos(c), "%s asks etcd for %s, not for the delimited prefix the other requests use", core.FuncName(f), core.Describe(key))
+					continue
+				}
+				if first == nil {
+					first = mk.Call.StaticCallee()
+				} else if mk.Call.StaticCallee() != first {
+					o.Fail(p.InstrPos(c), "%s builds its key range with %s, the other requests with %s", core.FuncName(f), core.FuncName(mk.Call.StaticCallee()), core.FuncName(first))
+				}
+			}
+		}
+		o.Site(n, pkg)
+	})
+}
+
+// c15ExtraSub: rules about lib/discov itself (subscriber construction).
+func c15ExtraSub(r *core.Run, pkg string) {
+	p := r.P
+	r.Check("D4/K3/options-before-container", "the subscriber's container is created after the options were applied: no option runs after newContainer read the exclusive flag (else Exclusive() is silently ignored)", func(o *core.O) {
+		n := 0
+		for _, f := range p.PkgFuncs(pkg) {
+			mk := core.Instrs(f, func(in ssa.Instruction) bool {
+				c, ok := in.(*ssa.Call)
+				return ok && c.Call.StaticCallee() != nil && c.Call.StaticCallee().Pkg == f.Pkg && len(c.Call.Args) == 1 && core.IsFieldLoad(core.Forward(c.Call.Args[0]), "Subscriber.exclusive")
+			})
+			if len(mk) == 0 {
+				continue
+			}
+			n += len(mk)
+			r.Fn(core.FuncName(f))
+			isOpt := core.CallOfValue(func(v ssa.Value) bool { return strings.HasSuffix(v.Type().String(), "lib/discov.SubOption") })
+			if w, ok := core.Reach(core.Q{From: afterAll(mk), Target: isOpt}); ok {
+				o.Fail(p.InstrPos(w), "%s applies options after the container was built from Subscriber.exclusive: the Exclusive() option has no effect", core.FuncName(f))
 			}
 		}
 		o.Site(n, pkg)
